@@ -117,6 +117,20 @@ func (e *pathEnv) knownNil(v ssa.Value) (known, isNil bool) {
 	if n, ok := e.nilK[v]; ok {
 		return true, n
 	}
+	// the value of a comma-ok lookup that was found, in a map that never holds nil
+	if ex, ok := v.(*ssa.Extract); ok && ex.Index == 0 && theWorld != nil {
+		if lk, isL := ex.Tuple.(*ssa.Lookup); isL && lk.CommaOk && lk.Referrers() != nil {
+			for _, r := range *lk.Referrers() {
+				if ok2, isE := r.(*ssa.Extract); isE && ok2.Index == 1 {
+					if t, known := e.truth[ok2]; known && t {
+						if _, fld, isF := fieldLoad(theWorld.resolveLoad(lk.X)); isF && theWorld.mapNeverHoldsNil(fld) {
+							return true, false
+						}
+					}
+				}
+			}
+		}
+	}
 	switch x := v.(type) {
 	case *ssa.Alloc, *ssa.MakeInterface, *ssa.MakeClosure, *ssa.MakeMap, *ssa.MakeChan, *ssa.FieldAddr, *ssa.IndexAddr, *ssa.Function, *ssa.Global:
 		return true, false
